@@ -107,6 +107,10 @@ package goa
 
 //@ lemma c17_ip_family property C17: forall p Bool, r4 Bool :: (p == ((p && r4) || (p && !r4))) && !((p && r4) && (p && !r4))
 
+// lock discipline of the pattern cache: every read holds the lock (shared or exclusive), every write holds it exclusively,
+// wherever the access happens (helpers included)
+//@ guard knownPatterns read select(lockHeld, knownPatternsLock) >= 1 write select(lockHeld, knownPatternsLock) == 2 property C17 C20
+
 //@ func ValidatePattern
 //@   property C17 C20
 //@   requires knownPatterns != nil && knownPatternsLock != nil
@@ -117,8 +121,6 @@ package goa
 //@   ensures* verdict: (result == nil) == reMatches(compileRe(p), val)
 //@   ensures* cached: inMap(knownPatterns, p)
 //@   ensures* unlocked: select(lockHeld, knownPatternsLock) == 0
-//@   at lookup 1 assert* read.locked: select(lockHeld, knownPatternsLock) >= 1
-//@   at mapupdate 1 assert* write.locked: select(lockHeld, knownPatternsLock) == 2
 
 // regex-defined formats against a specification language (SMT regular expressions)
 //@ smt (define-fun reAlnum () RegLan (re.union (re.range "a" "z") (re.range "A" "Z") (re.range "0" "9")))
